@@ -4,6 +4,7 @@
 import EG.Driver.Line
 import EG.Model.ThickLine
 import EG.Model.ThickPolyline
+import EG.Model.ThickTriangle
 namespace EG.Driver
 open EG
 
@@ -24,6 +25,19 @@ private def fmtPolyDraw : Joins.PolyDraw → String
   | .drawIter pts => "di:" ++ fmtPtsDigest pts
   | .fillSolids [] => "-"        -- no call at all: the log is empty
   | .fillSolids rs => "fs:" ++ fmtPtsDigest (rectsAsPts rs)
+
+/-- `-` or a colour number. -/
+private def optColor (t : Toks) : Option Nat × Toks :=
+  let (s, t) := t.str
+  (if s == "-" then none else some (parseNat s), t)
+
+/-- `fill_solid` calls with colours as the point list `tl, (w, colour), ..` (the height is 1). -/
+private def colRectsAsPts (rs : List (Rect × Nat)) : List Pt :=
+  rs.flatMap (fun (r, c) => [r.tl, (⟨(r.size.w : Int), (c : Int)⟩ : Pt)])
+
+/-- Coloured pixels as the point list `p, (colour, 0), ..`. -/
+private def colPixAsPts (ps : List (Pt × Nat)) : List Pt :=
+  ps.flatMap (fun (p, c) => [p, (⟨(c : Int), 0⟩ : Pt)])
 
 private def stuckOr (o : Option String) : String :=
   match o with
@@ -57,6 +71,27 @@ def handleThick (stream : String) (t : Toks) : Option String :=
       let dr ← Joins.drawStyled pl w
       let px ← Joins.pixels pl w
       pure s!"bb={fmtRect bb} draw={fmtPolyDraw dr} px={fmtPtsDigest px}"))
+  | "thick.triangle" =>
+    let (d, t) := t.pt
+    let (a, t) := t.pt
+    let (b, t) := t.pt
+    let (c, t) := t.pt
+    let (w, t) := t.nat
+    let (al, t) := t.nat
+    let (fill, t) := optColor t
+    let (stroke, _) := optColor t
+    let align : Joins.StrokeAlignment := match al with
+      | 0 => .inside
+      | 1 => .center
+      | _ => .outside
+    let tri : Joins.Tri := (⟨a, b, c⟩ : Joins.Tri).translate d
+    let style : Joins.TriStyle := ⟨fill, stroke, w, align⟩
+    some (stuckOr (do
+      let bb ← Joins.triStyledBoundingBox tri style
+      let dr ← Joins.triDraw tri style
+      let px ← Joins.triPixels tri style
+      let d := if dr.isEmpty then "-" else "fs:" ++ fmtPtsDigest (colRectsAsPts dr)
+      pure s!"bb={fmtRect bb} draw={d} px={fmtPtsDigest (colPixAsPts px)}"))
   | _ => none
 
 end EG.Driver
